@@ -122,6 +122,25 @@ static uint64_t wl_aes(rng_t *r, uint64_t h, uint8_t *data, size_t cap)
                          : isal_aes_gcm_enc_128_update(kd, cd, out + cut, data + off + cut, len - cut));
                 CHK(b256 ? isal_aes_gcm_enc_256_finalize(kd, cd, tag, 12) : isal_aes_gcm_enc_128_finalize(kd, cd, tag, 12));
                 h = fnv(fnv(h, out, len), tag, 12);
+                /* non-temporal variants: 64-byte aligned buffers; streaming pieces in multiples of 64 bytes */
+                {
+                        uint8_t *ai, *ao; uint32_t nl = 64 * below(r, 24);
+                        if (posix_memalign((void **) &ai, 64, 2048) || posix_memalign((void **) &ao, 64, 2048)) abort();
+                        memcpy(ai, data + off, nl);
+                        CHK(b256 ? isal_aes_gcm_enc_256_nt(kd, cd, ao, ai, nl, iv, aad, alen, tag, 16) : isal_aes_gcm_enc_128_nt(kd, cd, ao, ai, nl, iv, aad, alen, tag, 16));
+                        h = fnv(fnv(h, ao, nl), tag, 16);
+                        CHK(b256 ? isal_aes_gcm_dec_256_nt(kd, cd, ai, ao, nl, iv, aad, alen, tag, 16) : isal_aes_gcm_dec_128_nt(kd, cd, ai, ao, nl, iv, aad, alen, tag, 16));
+                        h = fnv(fnv(h, ai, nl), tag, 16);
+                        CHK(b256 ? isal_aes_gcm_init_256(kd, cd, iv, aad, alen) : isal_aes_gcm_init_128(kd, cd, iv, aad, alen));
+                        CHK(b256 ? isal_aes_gcm_enc_256_update_nt(kd, cd, ao, ai, nl) : isal_aes_gcm_enc_128_update_nt(kd, cd, ao, ai, nl));
+                        CHK(b256 ? isal_aes_gcm_enc_256_finalize(kd, cd, tag, 16) : isal_aes_gcm_enc_128_finalize(kd, cd, tag, 16));
+                        h = fnv(fnv(h, ao, nl), tag, 16);
+                        CHK(b256 ? isal_aes_gcm_init_256(kd, cd, iv, aad, alen) : isal_aes_gcm_init_128(kd, cd, iv, aad, alen));
+                        CHK(b256 ? isal_aes_gcm_dec_256_update_nt(kd, cd, ai, ao, nl) : isal_aes_gcm_dec_128_update_nt(kd, cd, ai, ao, nl));
+                        CHK(b256 ? isal_aes_gcm_dec_256_finalize(kd, cd, tag, 16) : isal_aes_gcm_dec_128_finalize(kd, cd, tag, 16));
+                        h = fnv(fnv(h, ai, nl), tag, 16);
+                        free(ai); free(ao);
+                }
                 /* key expansion, XTS raw + expanded */
                 uint8_t k2[32]; fill(r, k2, 32);
                 if (b256) { CHK(isal_aes_keyexp_256(key, e1, d1)); CHK(isal_aes_keyexp_256(k2, e2, d2)); }
